@@ -24,8 +24,8 @@ spurious count.
 | deleting other copies never alters it | `delete_isolated` (the whole cascade of `ts_subtree_release`), `rc_invariant_delete` |
 | editing a copy never alters what another handle observes | `edit_isolated` (every edit, any visited set), `copy_isolated` |
 | every shared node is freed exactly once after the last handle goes away | `rc_invariant_delete` + `no_dangling_no_garbage`: after every history (`rc_invariant`) every cell without owner has been freed and no freed cell is referenced; freed ids are never reused. OPEN `heap_empty_after_last_delete` (needs an acyclicity rank: with no handle left, live cells could only be referenced from a cycle) — judged by the allocator balance |
-| using any copy as the old tree of a re-parse never alters it | OPEN `reparse_isolated` (re-parse is abstract in the model) — judged on every real re-parse (`judgeIsolated`) |
-| concurrent use = sequential use | OPEN `interleaving_eq_sequential` (small-step refinement); tied syntactically to SEQ_CST atomics, judged by threaded-vs-sequential runs |
+| using any copy as the old tree of a re-parse never alters it | `reparse_isolated`, `rc_invariant_reparse` (re-parse as an abstract build with the ownership contract "reuse = retain, everything else is a fresh cell"; which subtrees are reused is not modelled) |
+| concurrent use = sequential use; no reference-count update is lost | `interleaving_eq_sequential_counts`, `no_lost_update_counts`: the only accesses that operations on distinct handles share are atomic count updates (all other writes go to exclusively owned cells: `writes_exclusive` + isolation theorems), and every interleaving of those equals the sequential order; tied syntactically to SEQ_CST atomics; OPEN: the full small-step refinement (`interleaving_eq_sequential` with reads of children/payload interleaved — they are reads of fields no other thread writes), judged by threaded-vs-sequential runs |
 -/
 namespace TsVerif.C08
 
@@ -215,13 +215,50 @@ inductive Op (D : Type) where
   | copy (h : Nat)
   | edit (h : Nat) (spec : EditSpec D)
   | delete (h : Nat)
+  | reparse (spec : BuildSpec D)
 
 def State.apply (s : State D) : Op D → State D
   | .copy h => s.copy h
   | .edit h spec => s.edit h spec
   | .delete h => s.delete h
+  | .reparse spec => s.reparse spec
 
-/-- `rc_invariant`: the invariant holds after every history of copies, edits and deletes. -/
+/-- `rc_invariant_reparse`: a (re-)parse — any build that reuses existing subtrees by retaining them
+and otherwise creates fresh cells — keeps the invariant, with the result as a new handle. -/
+theorem rc_invariant_reparse (s : State D) (spec : BuildSpec D) (hw : SWF s) : SWF (s.reparse spec) := by
+  unfold State.reparse
+  by_cases hl : reusedLive s.heap spec = true
+  · simp only [hl, if_true]
+    have := (build_ok spec s.heap _ hw hl).1
+    simp only [SWF]
+    refine wf_perm this (fun a => ?_)
+    rw [rootsOf_append_some, cnt_append, cnt_cons a (build s.heap spec).2]
+    omega
+  · simp only [hl]; exact hw
+
+/-- `reparse_isolated`: using any tree as the old tree of a re-parse (reusing any of its subtrees)
+changes no existing handle's root and nothing observable through it. -/
+theorem reparse_isolated (s : State D) (spec : BuildSpec D) (h' : Nat) (r' : Ref D) (hr' : s.root h' = some r') :
+    (s.reparse spec).root h' = some r' ∧
+    ∀ (f : Nat) (t : OTree D), unfold f s.heap r' = some t → unfold f (s.reparse spec).heap r' = some t := by
+  unfold State.reparse
+  by_cases hl : reusedLive s.heap spec = true
+  · simp only [hl, if_true]
+    refine ⟨?_, fun f t hu => ?_⟩
+    · have hk := root_handles hr'
+      unfold State.root
+      simp only
+      have hlt : h' < s.handles.length := by
+        rcases Nat.lt_or_ge h' s.handles.length with h1 | h1
+        · exact h1
+        · rw [List.getElem?_eq_none h1] at hk; cases hk
+      rw [List.getElem?_append_left hlt, hk]
+    · -- every existing cell keeps children and payload: nothing to see
+      have hext : Ext s.heap (build s.heap spec).1 := build_ext spec s.heap
+      exact unfold_ext hext f r' t hu
+  · simp only [hl]; exact ⟨hr', fun _ _ hu => hu⟩
+
+/-- `rc_invariant`: the invariant holds after every history of copies, edits, deletes and re-parses. -/
 theorem rc_invariant (ops : List (Op D)) : ∀ (s : State D), SWF s → SWF (ops.foldl State.apply s) := by
   induction ops with
   | nil => intro s hw; exact hw
@@ -233,6 +270,7 @@ theorem rc_invariant (ops : List (Op D)) : ∀ (s : State D), SWF s → SWF (ops
     | copy h => exact rc_invariant_copy s h hw
     | edit h spec => exact rc_invariant_edit s h spec hw
     | delete h => exact rc_invariant_delete s h hw
+    | reparse spec => exact rc_invariant_reparse s spec hw
 
 /-- Consequences of the invariant in any reachable state: no dangling root or child link, and no
 live cell without an owner (nothing leaked, nothing freed too early). -/
@@ -299,5 +337,32 @@ example :
     cellAt s'.heap 0 = some { rc := 1, kids := [.inl 5], data := 1 } ∧
     cellAt s'.heap 1 = some { rc := 1, kids := [.inl 6], data := 9 } := by
   decide
+
+
+/-! ## Concurrency: the shared accesses of operations on distinct handles -/
+
+/-- `interleaving_eq_sequential_counts` (the part of `interleaving_eq_sequential` that concerns
+shared state): operations on *distinct* handles touch common cells only through atomic count
+updates (`writes_exclusive`, `edit_isolated`, `delete_isolated`: every other write goes to a cell
+that no other handle can reach).  For those accesses **every** interleaving of the threads'
+sequences `A` and `B` — any permutation of `A ++ B`, executed under sequential consistency — leaves
+every cell in exactly the state the sequential execution "`A` then `B`" produces: no update is lost.
+(Hypotheses: the cells are live and no count is driven below zero, which `rc_invariant` guarantees
+for the accesses real operations perform.) -/
+theorem interleaving_eq_sequential_counts (h : Heap D) (A B inter : List Acc) (hp : inter.Perm (A ++ B))
+    (hl : ∀ a, a ∈ A ++ B → (cellAt h a.id).isSome = true) (hd : ∀ i, decsOf i (A ++ B) ≤ rcOf h i) (i : Nat) :
+    cellAt (applyAll h inter) i = cellAt (applyAll (applyAll h A) B) i := by
+  have := count_interleavings_agree hp.symm h hl hd i
+  rw [← this]
+  simp [applyAll, List.foldl_append]
+
+/-- `no_lost_update_counts`: the closed form — after any such interleaving a cell's count is its
+initial count plus the number of increments minus the number of decrements. -/
+theorem no_lost_update_counts (h : Heap D) (accs : List Acc)
+    (hl : ∀ a, a ∈ accs → (cellAt h a.id).isSome = true) (hd : ∀ i, decsOf i accs ≤ rcOf h i) (i : Nat) :
+    rcOf (applyAll h accs) i + decsOf i accs = rcOf h i + incsOf i accs := (no_lost_update accs h hl hd).1 i
+
+example : applyAll ([some { rc := 2, kids := [], data := 0 }] : Heap Nat) [.inc 0, .dec 0, .dec 0, .inc 0]
+    = applyAll [some { rc := 2, kids := [], data := 0 }] [.dec 0, .dec 0, .inc 0, .inc 0] := by decide
 
 end TsVerif.C08
